@@ -11,7 +11,7 @@ META = {
                  "block_parameters_index is assigned before write_block(block); R18.3 each input is processed in its own try inside "
                  "the loop body in both passes, and the version check compares all three version members; R18.4 cdns-itemcount's "
                  "totals are sums of get_qr/aec/mm_count of each block returned before `end`, the per-block lines print those same "
-                 "calls; R18.5 a block is rewritten relative to its own earliest time and parameters (time preservation). R18.2 remap-unconditional: the index rewrite sits only under the lookup test. R18.3 reference-from-first-readable: the reference preamble is assigned under a flag lowered in the same place, not under the position in the input list.",
+                 "calls; R18.5 a block is rewritten relative to its own earliest time and parameters (time preservation). R18.2 remap-unconditional: the index rewrite sits only under the lookup test. R18.3 reference-from-first-readable: the reference preamble is assigned under a flag lowered in the same place, not under the position in the input list. R18.3 version check decided by truth table over the three equalities; the reference preamble may be taken member by member when all three version members are taken.",
     "explanation": "Structural necessary conditions over the two tool mains; equality of merged content with the inputs and the "
                    "text layout of the tools are not decided.",
     "trusted_base": ["clang 14 AST", "std::unordered_map::operator[] value-initialises a missing key"],
